@@ -47,6 +47,17 @@ def handle (op : String) (args res : List String) : Option Verdict :=
         else .bad s!"divided-difference helper {fn}({shw x}, {shw y}): impl={shw v} formula model={shw m} (tolerance {tol})"
       | _, _ => .bad "parse"
     | _, _ => .bad "parse"
+  | "dcl" => some <|
+    match args with
+    | sp :: _pl :: rest =>
+      match rest.mapM pfl, res.mapM pfl with
+      | some (D :: s1 :: c1 :: s2 :: c2 :: cs), some [v] =>
+        let m := DClenshaw (sp == "1") D s1 c1 s2 c2 cs
+        let mag := cs.foldl (fun acc c => acc + Float.abs c) 0 * (2 * cs.length.toFloat + 2)
+        if closeF m v (64 * eps * mag + 1e-300) then .ok
+        else .bad s!"DClenshaw: impl={shw v} formula model={shw m}"
+      | _, _ => .bad "parse"
+    | _ => .bad "parse"
   | "dde" => some <|
     match args, res.mapM pfl with
     | [_a, fs, fn, _l1, _l2, txs, tys], some [v] =>
